@@ -34,7 +34,11 @@ func (C10) Describe() CheckInfo {
 func (C10) Generate(c *Ctx, r *Rand, index int) *Scenario {
 	sc := &Scenario{Kind: "proc", Meta: map[string]any{}}
 	rs := r.Fork("shape")
-	variant := rs.Weighted([]int{62, 12, 14, 12})
+	variant := rs.Weighted([]int{60, 12, 14, 10, 6})
+	if variant == 4 {
+		// split output: the files of the combined run are the files of the per-document runs
+		return GenSplitScenario(r, "C10")
+	}
 	format := "yaml"
 	opts := MultiOpts{MaxFiles: 4, MaxDocs: 3, AllowStdin: true, AllowEmpty: true, Format: "yaml"}
 	switch variant {
@@ -251,6 +255,20 @@ type c10part struct {
 }
 
 func (C10) Judge(c *Ctx, sc *Scenario) []Violation {
+	if sc.MetaString("variant") == "split" {
+		problems, nontrivial := JudgeSplit(c, sc)
+		if !c.Quiet {
+			c.Count("family.split-output")
+			if nontrivial {
+				c.Count("probe.split_files_compared_with_per_document_runs")
+			}
+		}
+		var vs []Violation
+		for _, p := range problems {
+			vs = append(vs, Violation{Prop: "C10", Oracle: "O10.8", Sig: "O10.8 split " + p[0], Class: "O10.8 split " + p[0], Msg: p[1] + " | argv=" + strings.Join(sc.Argv, " ")})
+		}
+		return vs
+	}
 	format := sc.MetaString("format")
 	outFmt := outFormatOf(sc.Argv, sc.Files)
 	raw := sc.MetaString("expr_raw")
